@@ -48,10 +48,17 @@ func copyTree(t map[string]string) map[string]string {
 
 func finish(c *cat.Catalog, opts []cat.Opts, cb bool) *cat.Catalog {
 	d := 1
-	for _, id := range c.FnIDs() {
+	for x, id := range c.FnIDs() {
 		f := c.Fns[id]
 		f.Dur = d
 		d *= 2
+		// vary the encodings the specification does not see, deterministically
+		h := (len(c.Note)*7 + x*13 + len(c.Fns)) % 10
+		f.Enc.ErrFirst = f.Kind != "inv" && h < 2
+		f.Enc.Variadic = h == 5
+		if h == 7 {
+			f.Enc.Nest = 1
+		}
 		if cb && f.Kind != "inv" {
 			f.Cb = true
 		}
